@@ -249,6 +249,15 @@ class ndarray:
     def transpose(self, *axes):
         return transpose(self)
 
+    def setflags(self, write=None, align=None, uic=None):
+        """Only write=False has an effect: the array (this view) becomes read-only, as in numpy."""
+        if write is not None:
+            self._readonly = not write
+
+    @property
+    def flags(self):
+        return types.SimpleNamespace(writeable=not getattr(self, "_readonly", False), owndata=True, c_contiguous=True)
+
     def tobytes(self, order="C"):
         """A hashable surrogate of the raw bytes: equal contents <=> equal result (used by caches keyed on array contents)."""
         return repr((self.shape, tuple(v.key() for v in self.values()))).encode()
@@ -340,6 +349,8 @@ class ndarray:
         return ndarray._fresh([self._st.d[i] for i in ix], shape)
 
     def __setitem__(self, key, val):
+        if getattr(self, "_readonly", False):
+            raise ValueError("assignment destination is read-only")
         pos, shape, _ = self._normalize_key(key)
         ix = [self._ix[p] for p in pos]
         vals = _broadcast_values(val, shape)
@@ -695,8 +706,27 @@ def square(x):
     return _unary(lambda a: a * a, x)
 
 
-def negative(x):
-    return _unary(lambda a: -a, x)
+def _with_out(res, out):
+    if out is None:
+        return res
+    if not isinstance(out, ndarray) or not isinstance(res, ndarray) or out.shape != res.shape:
+        raise Unsupported("out= argument of an unsupported shape")
+    for i, v in zip(out._ix, res.values()):
+        out._st.set(i, v)
+    return out
+
+
+def negative(x, out=None):
+    return _with_out(_unary(lambda a: -a, x), out)
+
+
+def fill_diagonal(a, val, wrap=False):
+    if not isinstance(a, ndarray) or a.ndim != 2:
+        raise Unsupported("fill_diagonal of a non-2-d array")
+    n, m = a.shape
+    vals = _broadcast_values(val, (min(n, m),)) if isinstance(val, (ndarray, list, tuple)) else [_scalar(val)] * min(n, m)
+    for i in range(min(n, m)):
+        a._st.set(a._ix[i * m + i], vals[i])
 
 
 def arctan2(y, x):
@@ -704,7 +734,10 @@ def arctan2(y, x):
 
 
 def _binary_fn(f):
-    def g(a, b):
+    def g(a, b, out=None):
+        return _with_out(g0(a, b), out)
+
+    def g0(a, b):
         if not isinstance(a, ndarray):
             a = array(a) if isinstance(a, (list, tuple)) else a
         if isinstance(a, ndarray):
